@@ -15,7 +15,8 @@ EXPLANATION = ('Decided: the pop in the getter is a switch on QueueMode whose Fi
 
 QUEUE_MODE = 'deadpool::managed::config::QueueMode'
 ORDER_PRESERVING = {'pop_front', 'pop_back', 'push_back', 'remove', 'len', 'is_empty', 'index', 'index_mut', 'get', 'get_mut', 'drain',
-                    'reserve_exact', 'reserve', 'with_capacity', 'new', 'iter', 'iter_mut', 'shrink_to_fit', 'capacity', 'deref', 'fmt'}
+                    'reserve_exact', 'reserve', 'try_reserve', 'try_reserve_exact', 'with_capacity', 'new', 'iter', 'iter_mut', 'shrink_to_fit', 'shrink_to', 'capacity', 'deref', 'fmt',
+                    'front', 'front_mut', 'back', 'back_mut', 'contains', 'as_slices', 'make_contiguous', 'range'}
 FORBIDDEN_PREFIX = ('tokio::spawn', 'tokio::task::spawn', 'tokio::runtime::', 'std::thread::spawn', 'std::thread::Builder',
                     'deadpool_runtime::Runtime::spawn_blocking', 'tokio::time::sleep', 'tokio::time::interval', 'async_std::task::spawn')
 
@@ -67,6 +68,11 @@ def run(ctx):
                 continue
             n += 1
             ok = m in ORDER_PRESERVING
+            if ok and m == 'push_back' and b.path == r.RETAIN.path:
+                # retain() putting elements back: whether the walk as a whole keeps the order is a loop argument (a full
+                # rotation does, a partial one does not) that is not attempted
+                ctx.undecide('R08.2', 'retain() re-inserts idle objects with push_back (line %s): order preservation of such a walk is not decided' % blk.term.line)
+                continue
             ctx.ob('R08.2', 'idle queue used only through order-preserving methods', ok, ctx.where(b, blk.term.line),
                    'VecDeque::%s on the idle queue reorders or inserts out of order' % m if not ok else '', construct='queue-method:%s:%s' % (b.name, m),
                    sites=[m])
@@ -74,7 +80,7 @@ def run(ctx):
                 # must be the full range, re-pushed in order into the new storage
                 rng = ban.resolve_operand(blk.term.args[1]) if len(blk.term.args) > 1 else ''
                 ctx.ob('R08.2', 'drain covers the whole queue', 'RangeFull' in rng, ctx.where(b, blk.term.line), 'drain(%s)' % rng, construct='queue-drain-range:' + b.name)
-    ctx.floor('R08.2', 'method calls on the idle queue', n, 9)
+    ctx.floor('R08.2', 'method calls on the idle queue', n, 6)
     # the re-allocation in resize re-pushes in order: push_back (not push_front) on the new deque
     z = r.RESIZE
     zan = prog.an(z)
